@@ -292,3 +292,27 @@ func phiOnly(ph *ssa.Phi, app *ssa.Call, trunc *ssa.Slice, other *ssa.Phi) bool 
 }
 
 var _ = token.ADD
+
+// isRangeHeaderCmp: the comparison is a loop's own bound test - an ordering against len(<slice,
+// array or map>), as the SSA builder emits for `range list` - and not a test of how many elements
+// a channel holds at the moment (len(ch) == 0), which is a condition in its own right.
+func isRangeHeaderCmp(cm *Cmp) bool {
+	if cm == nil || cm.Op == token.EQL || cm.Op == token.NEQ {
+		return false
+	}
+	lenOf := func(kind func(types.Type) bool) func(*Sym) bool {
+		return func(x *Sym) bool {
+			if x.Op != "call" || (x.Name != "len" && x.Name != "cap") || len(x.Args) != 1 {
+				return false
+			}
+			v := x.Args[0].V
+			return v != nil && kind(v.Type())
+		}
+	}
+	isChan := func(t types.Type) bool { _, ok := t.Underlying().(*types.Chan); return ok }
+	notChan := func(t types.Type) bool { return !isChan(t) }
+	if cm.L.Contains(lenOf(isChan)) || cm.R.Contains(lenOf(isChan)) {
+		return false
+	}
+	return cm.L.Contains(lenOf(notChan)) || cm.R.Contains(lenOf(notChan))
+}
